@@ -1,6 +1,6 @@
 (* C07: proofs about the scanner model (Algo/Scan.v): loop invariant of DESIGN A.3, for EVERY score function. *)
 From Coq Require Import NArith List Bool Arith Lia.
-From DBG Require Import Spec.Dna Spec.ScanSpec Algo.Scan Proofs.ListFacts.
+From DBG Require Import Gen.SourceConsts Spec.Dna Spec.ScanSpec Algo.Scan Proofs.ListFacts.
 Import ListNotations.
 Open Scope nat_scope.
 
@@ -398,30 +398,34 @@ End ChainFacts.
 Lemma cast_small w n : (N.of_nat n < 2 ^ w)%N -> N.to_nat (cast w n) = n.
 Proof. intro H. unfold cast. rewrite N.mod_small by exact H. apply Nat2N.id. Qed.
 
-Lemma iv_nat_cast wl x : (N.of_nat (s_mpos x) < 2 ^ 32)%N -> (N.of_nat (s_start x) < 2 ^ 32)%N ->
+Lemma iv_nat_cast wl x : (N.of_nat (s_mpos x) < 2 ^ msp_mpos_bits)%N -> (N.of_nat (s_start x) < 2 ^ msp_start_bits)%N ->
   (N.of_nat (s_len x) < 2 ^ wl)%N -> iv_nat (cast_iv wl x) = x.
 Proof.
   intros H1 H2 H3. destruct x as [mn q s l]. unfold iv_nat, cast_iv. cbn [iv_minimizer iv_mpos iv_start iv_len s_min s_mpos s_start s_len] in *.
   rewrite !cast_small by assumption. reflexivity.
 Qed.
 
+(* the length assert of scan makes positions fit the u32 fields (checked on the pinned constants) *)
+Lemma pins_assert_fits : (2 ^ msp_assert_shift <= 2 ^ msp_start_bits)%N /\ (2 ^ msp_assert_shift <= 2 ^ msp_mpos_bits)%N.
+Proof. split; apply N.leb_le; vm_compute; reflexivity. Qed.
+
 (* C07, clauses (a)-(f), for the intervals as REPORTED (after the as u32 / as u16 casts) *)
 Theorem scan_spec (score : dna -> N) sq k p :
-  1 <= p -> p <= k -> k <= length sq -> (N.of_nat (length sq) < 2 ^ 32)%N -> (N.of_nat (2 * k - p) < 2 ^ 16)%N ->
+  1 <= p -> p <= k -> k <= length sq -> (N.of_nat (length sq) < 2 ^ msp_assert_shift)%N -> (N.of_nat (2 * k - p) < 2 ^ msp_len_bits)%N ->
   exists ivs, scan score sq k p = Some ivs /\
               scan_ok score sq k p (map iv_nat ivs) /\ covered_once sq k (map iv_nat ivs).
 Proof.
   intros Hp Hpk Hkm H32 H16. unfold scan, scan_w, scan_guard.
   replace (k <=? length sq) with true by (symmetry; apply Nat.leb_le; exact Hkm).
-  replace (N.of_nat (length sq) <? 2 ^ 32)%N with true by (symmetry; apply N.ltb_lt; exact H32).
+  replace (N.of_nat (length sq) <? 2 ^ msp_assert_shift)%N with true by (symmetry; apply N.ltb_lt; exact H32).
   replace (p <=? k) with true by (symmetry; apply Nat.leb_le; exact Hpk).
   replace (1 <=? p) with true by (symmetry; apply Nat.leb_le; exact Hp).
   cbn [andb]. eexists. split; [reflexivity|].
   pose proof (scan_raw_ok score sq k p Hp Hpk Hkm) as OK.
-  assert (E : map iv_nat (map (cast_iv 16) (scan_raw score sq k p)) = scan_raw score sq k p).
+  assert (E : map iv_nat (map (cast_iv msp_len_bits) (scan_raw score sq k p)) = scan_raw score sq k p).
   { pose proof (scan_ok_small score sq k p _ Hp Hpk OK) as S. clear OK.
     induction S as [|x l [S1 [S2 S3]] _ IH]; [reflexivity|]. cbn [map]. rewrite IH. f_equal.
-    apply iv_nat_cast; lia. }
+    pose proof pins_assert_fits as [PA PB]. apply iv_nat_cast; lia. }
   rewrite E. split; [exact OK|]. apply (scan_ok_covered score sq k p). exact OK.
 Qed.
 
@@ -431,7 +435,7 @@ Qed.
 Theorem scan_checked_eq (score : dna -> N) sq k p wl : scan_checked_w score sq k p wl = scan_w score sq k p wl.
 Proof.
   unfold scan_checked_w, scan_w, scan_guard, sub_usize.
-  destruct (k <=? length sq) eqn:E1; [|reflexivity]. destruct (N.of_nat (length sq) <? 2 ^ 32)%N; [|reflexivity].
+  destruct (k <=? length sq) eqn:E1; [|reflexivity]. destruct (N.of_nat (length sq) <? 2 ^ msp_assert_shift)%N; [|reflexivity].
   cbn [andb]. destruct (1 <=? p) eqn:E3; [|now rewrite andb_false_r]. destruct (p <=? k) eqn:E2; [|reflexivity].
   cbn [andb]. apply Nat.leb_le in E1, E2, E3. apply checked_run; assumption.
 Qed.
@@ -441,23 +445,23 @@ Proof. apply scan_checked_eq. Qed.
 
 (* C07 for the checked model: no panic and clauses (a)-(f) *)
 Theorem scan_checked_spec (score : dna -> N) sq k p :
-  1 <= p -> p <= k -> k <= length sq -> (N.of_nat (length sq) < 2 ^ 32)%N -> (N.of_nat (2 * k - p) < 2 ^ 16)%N ->
+  1 <= p -> p <= k -> k <= length sq -> (N.of_nat (length sq) < 2 ^ msp_assert_shift)%N -> (N.of_nat (2 * k - p) < 2 ^ msp_len_bits)%N ->
   exists ivs, scan_checked score sq k p = Some ivs /\
               scan_ok score sq k p (map iv_nat ivs) /\ covered_once sq k (map iv_nat ivs).
 Proof. rewrite scan_checked_scan. apply scan_spec. Qed.
 
 (* the deprecated wrapper: the scan under the permutation score, keeping (bucket as u16, start, len) *)
 Theorem simple_scan_spec sq k p perm rcmode :
-  1 <= p -> p <= 8 -> p <= k -> k <= length sq -> (N.of_nat (length sq) < 2 ^ 32)%N -> (N.of_nat (2 * k - p) < 2 ^ 16)%N ->
+  1 <= p -> (N.of_nat p <= msp_simple_max_p)%N -> p <= k -> k <= length sq -> (N.of_nat (length sq) < 2 ^ msp_assert_shift)%N -> (N.of_nat (2 * k - p) < 2 ^ msp_len_bits)%N ->
   exists ivs, scan (perm_score perm rcmode) sq k p = Some ivs /\
     scan_ok (perm_score perm rcmode) sq k p (map iv_nat ivs) /\
     simple_scan sq k p perm rcmode =
-      Some (map (fun x => ((bucket_of (iv_minimizer x) mod 2 ^ 16)%N, iv_start x, iv_len x)) ivs).
+      Some (map (fun x => ((bucket_of (iv_minimizer x) mod 2 ^ msp_simple_bucket_bits)%N, iv_start x, iv_len x)) ivs).
 Proof.
   intros Hp Hp8 Hpk Hkm H32 H16.
   destruct (scan_spec (perm_score perm rcmode) sq k p Hp Hpk Hkm H32 H16) as [ivs [E [OK _]]].
   exists ivs. split; [exact E|]. split; [exact OK|]. unfold simple_scan.
-  replace (p <=? 8) with true by (symmetry; apply Nat.leb_le; exact Hp8).
+  replace (N.of_nat p <=? msp_simple_max_p)%N with true by (symmetry; apply N.leb_le; exact Hp8).
   rewrite scan_checked_scan, E. reflexivity.
 Qed.
 
